@@ -87,6 +87,7 @@ package db
 //@   ensures[others] forall k string :: {hlv.PreviousVersions[k]} k != source ==> hlv.PreviousVersions[k] == old(hlv.PreviousVersions[k])
 //@   ensures[mv]     mvUnchanged(hlv)
 //@   ensures[fresh]  hlv.PreviousVersions != nil && (old(hlv.PreviousVersions) != nil ==> hlv.PreviousVersions == old(hlv.PreviousVersions)) && hlv.PreviousVersions != hlv.MergeVersions
+//@   ensures[new-map] hlv.PreviousVersions == old(hlv.PreviousVersions) || !old(allocated(now(hlv.PreviousVersions)))
 
 //@ func HybridLogicalVector.AddMergeVersion
 //@   requires hlv != nil && (hlv.PreviousVersions == nil || hlv.PreviousVersions != hlv.MergeVersions)
@@ -97,6 +98,7 @@ package db
 //@   ensures[pv-keys]   forall k string :: {k in hlv.PreviousVersions} (k in hlv.PreviousVersions) <==> old(k in hlv.PreviousVersions) && k != source
 //@   ensures[pv-others] forall k string :: {hlv.PreviousVersions[k]} k != source ==> hlv.PreviousVersions[k] == old(hlv.PreviousVersions[k])
 //@   ensures[fresh]     hlv.MergeVersions != nil && (hlv.PreviousVersions == nil || hlv.PreviousVersions != hlv.MergeVersions)
+//@   ensures[new-map]   hlv.MergeVersions == old(hlv.MergeVersions) || !old(allocated(now(hlv.MergeVersions)))
 
 // InvalidateMV: every merge version other than the cv source moves to the previous versions; nothing else changes.
 //@ func HybridLogicalVector.InvalidateMV
@@ -107,8 +109,91 @@ package db
 //@   ensures[pv-moved] forall k string :: {hlv.PreviousVersions[k]} old(k in hlv.MergeVersions) && k != hlv.SourceID ==> hlv.PreviousVersions[k] == old(hlv.MergeVersions[k])
 //@   ensures[pv-kept]  forall k string :: {hlv.PreviousVersions[k]} !(old(k in hlv.MergeVersions) && k != hlv.SourceID) ==> hlv.PreviousVersions[k] == old(hlv.PreviousVersions[k])
 //@   ensures[wf]       hlvWF(hlv)
+//@   ensures[new-map]  hlv.PreviousVersions == old(hlv.PreviousVersions) || !old(allocated(now(hlv.PreviousVersions)))
+//@   loop 1 invariant[new-map]  hlv.PreviousVersions == old(hlv.PreviousVersions) || !old(allocated(now(hlv.PreviousVersions)))
 //@   loop 1 invariant[mv]       mvUnchanged(hlv) && (hlv.PreviousVersions == nil || hlv.PreviousVersions != hlv.MergeVersions)
 //@   loop 1 invariant[pv-keys]  forall k string :: {k in hlv.PreviousVersions} (k in hlv.PreviousVersions) <==> old(k in hlv.PreviousVersions) || ((k in #visited) && k != hlv.SourceID)
 //@   loop 1 invariant[pv-moved] forall k string :: {hlv.PreviousVersions[k]} (k in #visited) && k != hlv.SourceID ==> hlv.PreviousVersions[k] == old(hlv.MergeVersions[k])
 //@   loop 1 invariant[pv-kept]  forall k string :: {hlv.PreviousVersions[k]} !((k in #visited) && k != hlv.SourceID) ==> hlv.PreviousVersions[k] == old(hlv.PreviousVersions[k])
 //@   loop 1 invariant[visited]  forall k string :: {k in #visited} (k in #visited) ==> old(k in hlv.MergeVersions)
+
+// AddVersionToPV: the result code says exactly which case applied; only the named source can change, and only upwards.
+//@ func HybridLogicalVector.AddVersionToPV
+//@   requires hlv != nil && hlvWF(hlv) && (hlv.PreviousVersions == nil || hlv.PreviousVersions != hlv.MergeVersions)
+//@   modifies hlv.PreviousVersions, elems(hlv.PreviousVersions)
+//@   ensures[is-cv]     result == sourceIsCV <==> hlv.SourceID == sourceID
+//@   ensures[mv-newer]  result == versionInMVNewer <==> hlv.SourceID != sourceID && (sourceID in hlv.MergeVersions) && hlv.MergeVersions[sourceID] >= version
+//@   ensures[mv-older]  result == versionInMVOlder <==> hlv.SourceID != sourceID && (sourceID in hlv.MergeVersions) && hlv.MergeVersions[sourceID] < version
+//@   ensures[added]     result == versionAddedToPV <==> hlv.SourceID != sourceID && !(sourceID in hlv.MergeVersions) && (!old(sourceID in hlv.PreviousVersions) || old(hlv.PreviousVersions[sourceID]) < version)
+//@   ensures[pv-newer]  result == versionInPVNewer <==> hlv.SourceID != sourceID && !(sourceID in hlv.MergeVersions) && old(sourceID in hlv.PreviousVersions) && old(hlv.PreviousVersions[sourceID]) >= version
+//@   ensures[effect]    result == versionAddedToPV ==> (sourceID in hlv.PreviousVersions) && hlv.PreviousVersions[sourceID] == version
+//@   ensures[no-effect] result != versionAddedToPV ==> ((sourceID in hlv.PreviousVersions) <==> old(sourceID in hlv.PreviousVersions)) && hlv.PreviousVersions[sourceID] == old(hlv.PreviousVersions[sourceID])
+//@   ensures[others]    forall k string :: {k in hlv.PreviousVersions} k != sourceID ==> ((k in hlv.PreviousVersions) <==> old(k in hlv.PreviousVersions)) && hlv.PreviousVersions[k] == old(hlv.PreviousVersions[k])
+//@   ensures[mv]        mvUnchanged(hlv) && hlv.MergeVersions == old(hlv.MergeVersions)
+//@   ensures[wf]        hlvWF(hlv) && (hlv.PreviousVersions == nil || hlv.PreviousVersions != hlv.MergeVersions)
+//@   ensures[new-map]   hlv.PreviousVersions == old(hlv.PreviousVersions) || !old(allocated(now(hlv.PreviousVersions)))
+//@   loop 1 invariant[not-seen] forall k string :: {k in #visited} (k in #visited) ==> k != sourceID
+
+// AddVersion: on success the new version is the current version, every other source keeps exactly its
+// recorded value, the new source's value does not go down, and no source is listed twice; on error nothing changes.
+//@ func HybridLogicalVector.AddVersion
+//@   requires hlv != nil && hlvWF(hlv) && (hlv.PreviousVersions == nil || hlv.PreviousVersions != hlv.MergeVersions) && newVersion.SourceID != ""
+//@   requires[empty-cv] hlv.SourceID == "" ==> (forall k string :: {k in hlv.PreviousVersions} {k in hlv.MergeVersions} !(k in hlv.PreviousVersions) && !(k in hlv.MergeVersions))
+//@   modifies hlv.Version, hlv.SourceID, hlv.MergeVersions, hlv.PreviousVersions, elems(hlv.PreviousVersions)
+//@   ensures[cv]        isNilErr(result) ==> hlv.SourceID == newVersion.SourceID && hlv.Version == newVersion.Value
+//@   ensures[not-lower] isNilErr(result) ==> newVersion.Value >= old(hval(hlv, newVersion.SourceID))
+//@   ensures[others]    isNilErr(result) ==> (forall s string :: {hhas(hlv, s)} {old(hhas(hlv, s))} s != newVersion.SourceID ==> (hhas(hlv, s) <==> old(hhas(hlv, s))) && hval(hlv, s) == old(hval(hlv, s)))
+//@   ensures[wf]        isNilErr(result) ==> hlvWF(hlv) && (hlv.PreviousVersions == nil || hlv.PreviousVersions != hlv.MergeVersions)
+//@   ensures[new-map]   hlv.PreviousVersions == old(hlv.PreviousVersions) || !old(allocated(now(hlv.PreviousVersions)))
+//@   ensures[mv-gone]   isNilErr(result) && old(hlv.SourceID) != "" ==> hlv.MergeVersions == nil
+//@   ensures[rejected]  !isNilErr(result) ==> old(hhas(hlv, newVersion.SourceID)) && old(hval(hlv, newVersion.SourceID)) > newVersion.Value
+//@   ensures[unchanged] !isNilErr(result) ==> hlv.SourceID == old(hlv.SourceID) && hlv.Version == old(hlv.Version) && hlv.MergeVersions == old(hlv.MergeVersions) && hlv.PreviousVersions == old(hlv.PreviousVersions) && pvUnchanged(hlv) && mvUnchanged(hlv)
+
+// two vectors that share no map object (so updating one cannot disturb the other)
+//@ pred hlvSeparate(a *HybridLogicalVector, b *HybridLogicalVector) bool
+//@   is a != b && (a.PreviousVersions == nil || (a.PreviousVersions != a.MergeVersions && a.PreviousVersions != b.MergeVersions && a.PreviousVersions != b.PreviousVersions)) &&
+//@      (a.MergeVersions == nil || (a.MergeVersions != b.MergeVersions && a.MergeVersions != b.PreviousVersions))
+
+// what UpdateHistory guarantees about the receiving vector, relative to the state on entry
+//@ pred histCV(h *HybridLogicalVector, in *HybridLogicalVector) bool
+//@   is hlvSeparate(h, in) && h.SourceID == old(h.SourceID) && h.Version == old(h.Version)
+//@ pred histKeeps(h *HybridLogicalVector) bool
+//@   is forall s string :: {hhas(h, s)} {old(hhas(h, s))} old(hhas(h, s)) ==> hhas(h, s) && hval(h, s) >= old(hval(h, s))
+//@ pred histOnly(h *HybridLogicalVector, in *HybridLogicalVector) bool
+//@   is forall s string :: {hhas(h, s)} hhas(h, s) ==> old(hhas(h, s)) || old(hhas(in, s))
+//@ pred histIncoming(in *HybridLogicalVector) bool
+//@   is in.SourceID == old(in.SourceID) && in.Version == old(in.Version) && in.MergeVersions == old(in.MergeVersions) && in.PreviousVersions == old(in.PreviousVersions) && mvUnchanged(in) && pvUnchanged(in)
+
+//@ func HybridLogicalVector.UpdateHistory
+//@   requires hlv != nil && incomingHLV != nil && hlvWF(hlv) && hlvSeparate(hlv, incomingHLV)
+//@   modifies hlv.PreviousVersions, hlv.MergeVersions, elems(hlv.PreviousVersions)
+//@   ensures[wf]       hlvWF(hlv)
+//@   ensures[cv]       histCV(hlv, incomingHLV)
+//@   ensures[incoming] histIncoming(incomingHLV)
+//@   ensures[keeps]    histKeeps(hlv)
+//@   ensures[only]     histOnly(hlv, incomingHLV)
+//@   ensures[receives] forall s string :: {hhas(hlv, s)} {old(hhas(incomingHLV, s))} old(hhas(incomingHLV, s)) ==> hhas(hlv, s)
+//@   loop * invariant[recv-cv]  incomingHLV.SourceID == "" || hhas(hlv, incomingHLV.SourceID)
+//@   loop * invariant[recv]     forall s string :: {s in #visited} (s in #visited) && s != "" ==> hhas(hlv, s)
+//@   loop 3 invariant[recv-mv]  forall s string :: {s in incomingHLV.MergeVersions} (s in incomingHLV.MergeVersions) && s != "" ==> hhas(hlv, s)
+//@   loop * invariant[wf]       hlvWF(hlv)
+//@   loop * invariant[cv]       histCV(hlv, incomingHLV)
+//@   loop * invariant[incoming] histIncoming(incomingHLV)
+//@   loop * invariant[keeps]    histKeeps(hlv)
+//@   loop * invariant[only]     histOnly(hlv, incomingHLV)
+
+
+// MergeWithIncomingHLV: the merged vector has the new current version, records both previous current
+// versions as merge versions, loses no source of either side and lists no source twice.
+//@ func HybridLogicalVector.MergeWithIncomingHLV
+//@   requires hlv != nil && incomingHLV != nil && hlvWF(hlv) && hlvSeparate(hlv, incomingHLV) && newCV.SourceID != "" && hlv.SourceID != "" && incomingHLV.SourceID != ""
+//@   requires[new-cv-newer] newCV.SourceID == incomingHLV.SourceID ==> newCV.Value >= incomingHLV.Version
+//@   requires[concurrent] !hlv.DominatesSource(Version{SourceID: incomingHLV.SourceID, Value: incomingHLV.Version}) && !incomingHLV.DominatesSource(Version{SourceID: hlv.SourceID, Value: hlv.Version})
+//@   modifies hlv.Version, hlv.SourceID, hlv.MergeVersions, hlv.PreviousVersions, elems(hlv.PreviousVersions), elems(hlv.MergeVersions)
+//@   ensures[cv]        isNilErr(result) ==> hlv.SourceID == newCV.SourceID && hlv.Version == newCV.Value
+//@   ensures[wf]        isNilErr(result) ==> hlvWF(hlv)
+//@   ensures[merge]     isNilErr(result) ==> hhas(hlv, old(hlv.SourceID)) && hval(hlv, old(hlv.SourceID)) >= old(hlv.Version) && hhas(hlv, old(incomingHLV.SourceID)) && hval(hlv, old(incomingHLV.SourceID)) >= old(incomingHLV.Version)
+//@   ensures[keeps]     isNilErr(result) ==> (forall s string :: {hhas(hlv, s)} {old(hhas(hlv, s))} old(hhas(hlv, s)) ==> hhas(hlv, s))
+//@   ensures[incoming]  isNilErr(result) ==> (forall s string :: {hhas(hlv, s)} {old(hhas(incomingHLV, s))} old(hhas(incomingHLV, s)) ==> hhas(hlv, s))
+//@   ensures[only]      isNilErr(result) ==> (forall s string :: {hhas(hlv, s)} hhas(hlv, s) ==> old(hhas(hlv, s)) || old(hhas(incomingHLV, s)) || s == newCV.SourceID)
+//@   ensures[unchanged] !isNilErr(result) ==> hlv.SourceID == old(hlv.SourceID) && hlv.Version == old(hlv.Version) && pvUnchanged(hlv) && mvUnchanged(hlv)
